@@ -15,9 +15,12 @@ Local Open Scope string_scope.
 
 Record obs := {
   o_status : N;                         (* 0 generated, type-checks, NewT returned; 1 shoot exit status 1; 2 timeout;
-                                           3 the generated package does not type-check; 4 NewT panicked; 5 other *)
+                                           3 the generated file of this type does not type-check; 4 NewT panicked;
+                                           5 not observable: the generated file of a SIBLING type does not type-check;
+                                           6 the package type-checks but NewT / its oracle case is missing *)
   o_tparams : list (string * string);   (* NewT's type parameters (name, constraint) *)
   o_params : list (ident * string);     (* NewT's parameters (name, type) *)
+  o_result : string;                    (* NewT's result type *)
   o_args : list string;                 (* token of the sentinel passed for each parameter *)
   o_reads : list (path * string);       (* token read at every leaf occurrence, by its full path *)
   o_ptrs : list (path * string);        (* every embedded pointer occurrence: "zero" (nil), "nilhop", or anything else (allocated) *)
@@ -71,6 +74,7 @@ Record mobs := {
   m_status : N;
   m_tparams : list (string * string);
   m_params : list (ident * string);
+  m_result : string;
   m_reads : list (path * string);
   m_ptrs : list (path * string)
 }.
@@ -81,8 +85,8 @@ Definition ptr_occs (pkg : pkg_spec) (fuel : nat) (sd : sdecl) : list path :=
 Definition model_obs (c : case) (sd : sdecl) : mobs :=
   let pkg := c_pkg c in let fuel := c_fuel c in
   match new_of pkg (c_flags c) fuel sd with
-  | CFatal _ => {| m_status := 1; m_tparams := []; m_params := []; m_reads := []; m_ptrs := [] |}
-  | COutOfFuel => {| m_status := 2; m_tparams := []; m_params := []; m_reads := []; m_ptrs := [] |}
+  | CFatal _ => {| m_status := 1; m_tparams := []; m_params := []; m_result := ""; m_reads := []; m_ptrs := [] |}
+  | COutOfFuel => {| m_status := 2; m_tparams := []; m_params := []; m_result := ""; m_reads := []; m_ptrs := [] |}
   | COk nd =>
       let args := bind_args (nd_params nd) (sent_vals (length (nd_params nd))) in
       let v := eval_new pkg fuel sd (nd_body nd) args in
@@ -90,6 +94,7 @@ Definition model_obs (c : case) (sd : sdecl) : mobs :=
       {| m_status := 0;
          m_tparams := tparams_flat (nd_tparams nd);
          m_params := nd_params nd;
+         m_result := new_result_type sd;
          m_reads := map (fun p => (p, rd p)) (leaf_paths pkg fuel (self_inst sd) []);
          m_ptrs := map (fun p => (p, rd p)) (ptr_occs pkg fuel sd) |}
   end.
@@ -106,6 +111,7 @@ Definition agree (c : case) (sd : sdecl) : bool :=
   (negb (N.eqb (o_status o) 0) ||
    (list_eqb str_pair_eqb (m_tparams m) (o_tparams o) &&
     list_eqb str_pair_eqb (m_params m) (o_params o) &&
+    String.eqb (m_result m) (o_result o) &&
     reads_eqb (m_reads m) (o_reads o) (fun t => t) &&
     reads_eqb (m_ptrs m) (o_ptrs o) norm_ptr_tok)).
 
@@ -139,6 +145,11 @@ Definition Pb (c : case) (sd : sdecl) : bool :=
   N.eqb (o_status o) 0 &&
   (* generics: the same type parameters and constraints *)
   list_eqb str_pair_eqb (o_tparams o) (struct_tparams sd) &&
+  (* ... and NewT returns *T instantiated with exactly these parameters, in order *)
+  String.eqb (o_result o)
+    ("*" ++ sd_name sd ++ match struct_tparams sd with
+                          | [] => ""
+                          | tps => "[" ++ String.concat ", " (map fst tps) ++ "]" end) &&
   Nat.eqb (length (o_args o)) (length (o_params o)) &&
   let leaves := leaf_paths pkg fuel (self_inst sd) [] in
   let ppaths := map (fun pr => param_leaf pkg fuel sd (fst pr)) (o_params o) in
@@ -191,7 +202,7 @@ Definition verdict (c : case) : N :=
   | None => 4%N
   | Some sd =>
       if c02_guard (c_pkg c) (c_fuel c) sd then
-        if N.eqb (o_status (c_obs c)) 5 then 3%N
+        if N.eqb (o_status (c_obs c)) 5 then 5%N
         else if Pb c sd then (if agree c sd then 0%N else 1%N) else 2%N
       else if N.eqb (o_status (c_obs c)) 3 || N.eqb (o_status (c_obs c)) 5 || agree c sd then 3%N else 1%N
   end.
